@@ -117,7 +117,32 @@ def evaluate(case):
     return fails, tags, out
 
 
+PURE_TOKENS = [["%26"], ["%3D"], ["%3A"], ["%40"], ["%2F"], ["%3F"], ["%23"], ["%25"], ["%2B"], ["a", "=", "b"], ["a", ":", "b"],
+               ["x", "%26", "y"], ["%41"], ["é"], ["%C3%A9"], ["%20"], [" "], ["%2541"]]
+PURE_SLOTS = ["frag", "val", "key", "seg", "password", "user"]
+
+
+def pure_label_cases():
+    out = []
+    for t in PURE_TOKENS:
+        for slot in PURE_SLOTS:
+            if slot == "user" and (":" in t or "@" in t):
+                continue
+            for q in (False, True):
+                out.append({slot: t, "quoted": q})
+    return out
+
+
+def pure_thunk(label):
+    cu = importlib.import_module("ural.canonicalize_url").canonicalize_url
+    url, comp = urlgram.build(label)
+    q = label.get("quoted", False)
+    return lambda: core.call(cu, url, quoted=q)
+
+
 def judge(w):
+    if "history" in w:
+        return core.judge_history(PROP + ".pure", w, pure_thunk)
     fails, _, _ = evaluate(w["case"])
     return fails
 
@@ -175,5 +200,8 @@ def explore(chk, prop=PROP, evaluate=evaluate, fails_fn=fails_fn, shrink=None):
 
 def run(chk):
     all_f, tags, ind = explore(chk)
+    chk.rule.append("H2: every ordered pair of %d canonicalize_url calls (delimiter-bearing tokens in each component, both modes) "
+                    "from a reset module state: the second result must not depend on the first call." % len(pure_label_cases()))
+    core.explore_pairs(chk, PROP + ".pure", [(l, pure_thunk(l)) for l in pure_label_cases()])
     for part in ["returns"] + ORDER + ["unsplit"]:
         chk.clause(PROP + "." + part, checked=ind, nontrivial=tags.get("changed", 0))
